@@ -149,8 +149,13 @@ impl<T: FileReader> RVParser<T> {
                 }
                 Err(x) => match x {
                     LexError::Expected(ex, got) => {
+                        // If the statement ended too early, its newline is already
+                        // consumed: skipping to the next one would drop the next line
+                        let at_end_of_line = *got == TokenType::Newline;
                         parse_errors.push(ParseError::Expected(ex, got));
-                        self.recover_from_parse_error();
+                        if !at_end_of_line {
+                            self.recover_from_parse_error();
+                        }
                     }
                     LexError::IsNewline(_) => {}
                     LexError::UnexpectedToken(got) => {
